@@ -63,6 +63,8 @@ def run(res, proofs_ok, proofs_why, only=None):
             bad_inputs.append({"start": g, "variant": v, "during_copy": mid, "after": post, "why": why, "model": m})
         if i != m:
             diffs.append({"start": g, "variant": v, "impl": i, "model": m})
+    if only is None:
+        bad_inputs += file_part(res)
     res.samples = [{"case": l, "impl": i, "model": m} for l, i, m in list(zip(lines, impl, model))[:3] + list(zip(lines, impl, model))[-3:]]
     res.traces_validated = len(lines) - len(diffs)
     res.oblige("correspondence:gen-exhaustive", not diffs)
@@ -75,6 +77,36 @@ def run(res, proofs_ok, proofs_why, only=None):
                        "first_differences": diffs[:5]}, found_input=False)
     if not proofs_ok:
         res.violation({"property": "C11", "kind": "obligation", "obligation": proofs_why}, found_input=False)
+
+
+def file_part(res):
+    """a daemon that starts over a file whose header says the segment has been published to (magic,
+    version and generation non-zero, declared size large enough) - whatever the length of the file,
+    a file cut short included - continues from that generation: after its first publication the
+    generation is the protocol's successor of the value in the file, never a restart from 0"""
+    import random, struct
+    from props import _files as F
+    results, _ = F.run_corpus(res, "C11", random.Random(res.seed * 131 + 11), 0)
+    bad = []
+    for r in results:
+        d, after = r["data"], r["after"]
+        if r["kind"] != 0 or len(d) < 16 or after is None or len(after) < 16:
+            continue
+        m0, m1, size, ver, gen = struct.unpack("<IIIHH", d[:16])
+        if (m0, m1) != F.MAGIC or ver == 0 or gen == 0 or size < 72:
+            continue
+        res.evaluations += 1
+        res.count("take-over of a published file:" + ("cut short" if len(d) < 72 else "whole"))
+        res.nontriv("file:" + d.hex())
+        want = (gen + 1 if gen % 2 else gen + 2) % 65536
+        if want == 0:
+            want = 2
+        got = struct.unpack("<H", after[14:16])[0]
+        if got != want:
+            bad.append({"start": gen, "file": r["tag"], "file_length": len(d), "after": got,
+                        "why": ["the file's header said generation %d (published segment, %d bytes long); after the daemon started over it and published once the generation is %d, "
+                                "the protocol's next value is %d: the count restarted" % (gen, len(d), got, want)]})
+    return bad
 
 
 def replay(res, path):
